@@ -885,7 +885,64 @@ def run(prog, rep):
             ncur += 1
             rep.ob("C11.4", fr_, "cursor", not curbad, "the input pointer moves past every chunk before the next one is read; the tail lands at the start of an emptied buffer" if not curbad else
                    "line %d: %s" % curbad[0], curbad[0][0] if curbad else fr_.loc[0])
-    rep.floor("C11.4", 6 + 6)
+    # the byte counter is two words: where update adds the length into the low word, the wrap-around test `low < addend` follows and
+    # its true branch increments the high word (sibling agreement md5 / sha1 / sha2-256 / sha2-512).  Without the carry the bit
+    # length in the padding is wrong for every message that crosses 2^32 bytes (512 MiB for the 32-bit counters' bit form)
+    ncar = 0
+    for un in ALGO_UNITS:
+        au = prog.unit(un)
+        for fr_ in sorted(au.functions.values(), key=lambda f__: f__.loc[0]):
+            if not fr_.name.endswith("_update") or len(fr_.param_names()) < 3:
+                continue
+            big = tuple(g_.name for g_ in au.functions.values() if g_.static and sum(len(b_.stmts) for b_ in g_.blocks.values()) > 40)
+            fu = fr_.inlined(skip=big)
+            lp_ = fu.param_names()[2]
+            adds = [n_ for (b_, i_, n_) in fu.nodes(elsewhere=True) if n_["k"] == "asg" and n_["op"] == "+=" and strip_casts(n_["l"])["k"] == "member"
+                    and root_var(n_["r"]) == lp_ and not any(x_["k"] == "bin" and x_["op"] == ">>" for x_ in walk(n_["r"]))]
+            if len(adds) != 1:
+                continue
+            lowf = strip_casts(adds[0]["l"])["field"]
+            lost = []
+
+            def cs_(st, b, i, stmt, lost=lost, lowf=lowf):
+                facts, phase = st          # 0 before the add, 1 added (test pending), 2 carry taken (increment pending), 3 settled
+                for n_ in walk(stmt):
+                    if n_ is adds[0]:
+                        phase = 1
+                    elif phase == 2 and ((n_["k"] == "un" and "++" in n_.get("op", "")) or (n_["k"] == "asg" and n_["op"] == "+=" and cv(n_["r"]) == 1)) \
+                            and strip_casts(n_["e"] if n_["k"] == "un" else n_["l"])["k"] == "member" and strip_casts(n_["e"] if n_["k"] == "un" else n_["l"])["field"] != lowf:
+                        phase = 3
+                    elif n_["k"] == "call" and n_.get("callee") in ("memcpy", "__builtin_memcpy", "__builtin___memcpy_chk") and phase in (1, 2):
+                        lost.append((line(n_), "no wrap-around test of the low word follows the addition" if phase == 1 else "the wrap-around branch does not increment the high word"))
+                        phase = 3
+                if stmt["k"] == "ret" and phase in (1, 2):
+                    lost.append((line(stmt), "no wrap-around test of the low word follows the addition" if phase == 1 else "the wrap-around branch does not increment the high word"))
+                return [(guards.transfer(facts, stmt), phase)]
+
+            def ce_(st, b, to, on, lowf=lowf):
+                f2 = guards.edge_assume(st[0], b, on)
+                if f2 is None:
+                    return None
+                phase = st[1]
+                c_ = strip_casts(b.cond) if b.cond is not None else None
+                while c_ is not None and c_["k"] == "call" and c_.get("callee") == "__builtin_expect":
+                    c_ = strip_casts(c_["args"][0])
+                while c_ is not None and c_["k"] == "un" and c_.get("op") == "!" and strip_casts(c_["e"])["k"] == "un" and strip_casts(c_["e"]).get("op") == "!":
+                    c_ = strip_casts(strip_casts(c_["e"])["e"])
+                if phase == 1 and c_ is not None and c_["k"] == "bin" and c_["op"] in ("<", ">"):
+                    lo_ = strip_casts(c_["l"] if c_["op"] == "<" else c_["r"])
+                    if lo_ is not None and lo_["k"] == "member" and lo_["field"] == lowf:
+                        phase = 2 if on == "true" else 3
+                return (f2, phase)
+            try:
+                Flow(fu, [(guards.EMPTY, 0)], cs_, ce_, max_states=20000).run()
+            except AnalysisBroken:
+                continue
+            ncar += 1
+            rep.ob("C11.4", fr_, "carry", not lost, "the addition into %s is followed by the wrap-around test whose true branch increments the high word" % lowf if not lost else
+                   "line %d: %s (%s += length in %s): the byte count loses 2^32 (2^64) every time the low word wraps, and the length field of the padding with it" % (
+                       lost[0][0], lost[0][1], lowf, fr_.name), lost[0][0] if lost else fr_.loc[0])
+    rep.floor("C11.4", 6 + 6 + 4)
     # fixed-size state, schedule and constant arrays: every subscript whose index is a constant, or a loop counter for which the path
     # carries an upper bound, stays inside the array - with the loop's stride taken into account (`for (i = 0; i < 64; i += 8) ... W[i + 7]`).
     # One step too far (`i <= 8` over `A[8]`) writes next to the array on the stack; the digest can still come out right.
@@ -1182,6 +1239,8 @@ def run(prog, rep):
 RENAME_LOCALS = ['src/pcryptohash.c', 'src/pcryptohash-sha3.c']   # md5/sha1 use unhygienic round macros that name the locals
 
 SELFTEST = [
+    dict(id="sha1-update-carry-dropped", file="src/pcryptohash-sha1.c", expect="C11.4",
+         old="\tif (ctx->len_low < (puint32) len)\n\t\t++ctx->len_high;", new="\tif (ctx->len_low < (puint32) len)\n\t\t;"),
     dict(id="sha3-update-input-not-advanced", file="src/pcryptohash-sha3.c", expect="C11.4",
          old="\t\tdata += to_fill;\n\t\tlen -= to_fill;\n\t\tleft = 0;", new="\t\tlen -= to_fill;\n\t\tleft = 0;"),
     dict(id="sha512-update-fill-level-kept", file="src/pcryptohash-sha2-512.c", expect="C11.4",
